@@ -42,7 +42,10 @@ def neutral(x):
         return {str(k): neutral(v) for k, v in x.items()}
     if hasattr(x, "as_array"):  # pulser.math.AbstractArray
         return neutral(x.as_array(detach=True))
-    if type(x).__name__ == "RegisterLayout":
+    if type(x).__name__ == "RegisterLayout" or (
+        hasattr(x, "sorted_coords") and hasattr(x, "slug") and hasattr(x, "define_register")
+    ):
+        # RegisterLayout and its special-layout subclasses: identity = canonical coordinates + slug
         return snap_layout(x)
     if type(x).__name__ == "NoiseModel":
         return snap_noise(x)
